@@ -79,11 +79,15 @@ unique_ptr<DiscreteDistributionInterface> BppODiscreteDistributionFormat::readDi
     vector<double> probas, values;
 
     string rf = args["values"];
+    if (rf.length() < 2)
+      throw Exception("Invalid argument 'values' in Simple distribution: " + rf);
     StringTokenizer strtok(rf.substr(1, rf.length() - 2), ",");
     while (strtok.hasMoreToken())
       values.push_back(TextTools::toDouble(strtok.nextToken()));
 
     rf = args["probas"];
+    if (rf.length() < 2)
+      throw Exception("Invalid argument 'probas' in Simple distribution: " + rf);
     StringTokenizer strtok2(rf.substr(1, rf.length() - 2), ",");
     while (strtok2.hasMoreToken())
       probas.push_back(TextTools::toDouble(strtok2.nextToken()));
@@ -93,6 +97,8 @@ unique_ptr<DiscreteDistributionInterface> BppODiscreteDistributionFormat::readDi
     if (args.find("ranges") != args.end())
     {
       string rr = args["ranges"];
+      if (rr.length() < 2)
+        throw Exception("Invalid argument 'ranges' in Simple distribution: " + rr);
       StringTokenizer strtok3(rr.substr(1, rr.length() - 2), ",");
       string desc;
       double deb, fin;
@@ -133,6 +139,8 @@ unique_ptr<DiscreteDistributionInterface> BppODiscreteDistributionFormat::readDi
     vector<unique_ptr<DiscreteDistributionInterface>> v_pdd;
     unique_ptr<DiscreteDistributionInterface> pdd;
     string rf = args["probas"];
+    if (rf.length() < 2)
+      throw Exception("Invalid argument 'probas' in Mixture distribution: " + rf);
     StringTokenizer strtok2(rf.substr(1, rf.length() - 2), ",");
     while (strtok2.hasMoreToken())
       probas.push_back(TextTools::toDouble(strtok2.nextToken()));
